@@ -297,9 +297,19 @@ def r6(rr, repo):
 def r7(rr, repo):
     cmod, pf = repo.find(f'{CLI}::parse_filters')
     # 1. explicit outputs: the conversion statement  output = f'tcp://{"localhost" if addr[:1] in "*0" else addr}:{port}'
-    conv = [n for n in walk_scope(pf) if isinstance(n, ast.Assign) and isinstance(n.value, ast.JoinedStr) and U(n.value).startswith("f'tcp://{") and len([v for v in n.value.values if isinstance(v, ast.FormattedValue)]) == 2
-            and not any(U(t).endswith('.outputs') for t in n.targets) and 'max_port' not in U(n.value)]
-    rr.floor('bind-address to connect-address conversions', len(conv), 1, cmod, pf)
+    cand = [n for n in walk_scope(pf) if isinstance(n, ast.Assign) and isinstance(n.value, ast.JoinedStr) and U(n.value).startswith("f'tcp://")
+            and not any(U(t).endswith('.outputs') for t in n.targets) and 'max_port' not in U(n.value) and not any(U(t) in ('new_source',) or 'source_by_id' in U(t) for t in n.targets)]
+    rr.floor('bind-address to connect-address conversions', len(cand), 1, cmod, pf)
+    conv = []
+    for n in cand:
+        nfv = len([v for v in n.value.values if isinstance(v, ast.FormattedValue)])
+        if nfv == 2 and U(n.value).startswith("f'tcp://{"):
+            conv.append(n)
+        elif nfv == 1 and isinstance(n.value.values[0], ast.Constant) and str(n.value.values[0].value) != 'tcp://':
+            # the host is a literal: whatever host the user bound is thrown away
+            rr.ob("a wildcard bind host ('*', '0...') is replaced by localhost, any other host is kept", False, cmod, n, witness=f'host is the literal {str(n.value.values[0].value)[6:]!r} for every explicit output', key='conv-host')
+        else:
+            rr.unresolved('the conversion of an explicit tcp output into a source address has a form this rule does not know', cmod, n, witness=U(n.value)[:100], key='conv-form')
     for n in conv:
         fv = [v.value for v in n.value.values if isinstance(v, ast.FormattedValue)]
         host, port = fv[0], fv[1] if len(fv) > 1 else None
@@ -377,3 +387,33 @@ def r9(rr, repo):
         rr.ob("the allocated ipc name is looked up in the set of ipc outputs already bound (and changed or refused on a clash)", used is not None, mod, st, witness=f'{U(st)[:80]}; looked up in: {used}', key='ipc-alloc-checked')
         if used is not None:
             rr.ob('that set holds the user-given ipc outputs and every earlier allocation', recorded and fed, mod, st, witness=f'user-given ipc outputs added: {fed}; allocation recorded: {recorded}', key='ipc-alloc-set-complete')
+
+
+@rule('C12.R10', "ids are text wherever they are compared: option values are JSON-decoded ('--id 7' arrives as the number 7), so before ids are looked up, used as auto-chain sources or matched against "
+                 "'--sources 7;main' (always text) a numeric id / source / output is turned back into text; otherwise the filter named 7 is never found and auto-chaining to it fails on a non-iterable number")
+def r10(rr, repo):
+    mod, pf = repo.find(f'{CLI}::parse_filters')
+    _, ppv = repo.find(f'{CLI}::parse_filters.parse_param_value')
+    decodes = [c for c in q.calls_in(ppv) if U(c.func) in ('json_getval', 'json_loads', 'json.loads')]
+    rr.floor('JSON decodings of option values', len(decodes), 1, mod, ppv)
+    table = [n for n in walk_scope(pf) if isinstance(n, ast.Assign) and U(n.targets[0]) == 'config_by_id']
+    if not table:
+        raise Unresolved(f'{CLI}: parse_filters no longer builds config_by_id')
+    first_lookup = min(n.lineno for n in table)
+    convs = [n for n in walk_scope(pf) if isinstance(n, ast.Assign) and isinstance(n.value, ast.Call) and U(n.value.func) == 'str' and
+             (U(n.targets[0]) in ('config.id', 'config.sources', 'config.outputs') or (isinstance(n.targets[0], ast.Subscript) and U(n.targets[0].value) == 'config')) and n.lineno < first_lookup]
+    keys = set()
+    for n in convs:
+        t = n.targets[0]
+        if isinstance(t, ast.Attribute):
+            keys.add(t.attr)
+        else:
+            k = q.const_str(t.slice)
+            if k:
+                keys.add(k)
+            else:      # config[key] inside `for key in (..literals..)`
+                for a in ancestors(n):
+                    if isinstance(a, ast.For) and U(a.target) == U(t.slice) and isinstance(a.iter, (ast.Tuple, ast.List)):
+                        keys |= {q.const_str(e) for e in a.iter.elts if q.const_str(e)}
+    rr.ob("a numeric id and a numeric source are turned into text before ids are looked up", {'id', 'sources'} <= keys, mod, convs[0] if convs else table[0],
+          witness=f'keys converted with str() before config_by_id is built: {sorted(keys) or "none"}', key='ids-are-text')
